@@ -88,6 +88,7 @@ type TxnRec struct {
 	CommitTs   uint64 // resolved after the run (0 = not committed)
 	WantTs     uint64 // managed mode: requested commit ts
 	Cold       bool   // long-running transaction on a private key
+	LateCommit bool   // waited with its writes pending before committing
 }
 
 // Pending returns the final pending write per key (later call wins).
@@ -130,9 +131,16 @@ type Mix struct {
 	DiscardFrac   float64
 	LongRWFrac    float64 // RW transactions that stay open until many other commits happened
 	LongRWCommits int64
-	MinWrites     int
-	ReadAll       bool // read-only transactions read every key
-	NoReads       bool // blind writers only
+	// LateCommitFrac: RW transactions that wait, with all their writes pending, until LongRWCommits
+	// other commits were acknowledged before they commit (entries are sized and classified when they
+	// are set; the state those decisions depend on may move before they are written).
+	LateCommitFrac float64
+	// ValSizesLate, when set, replaces ValSizes once half of all transactions were started (the size
+	// distribution - and with VLogPercentile the value threshold - drifts during the run).
+	ValSizesLate []int
+	MinWrites    int
+	ReadAll      bool // read-only transactions read every key
+	NoReads      bool // blind writers only
 }
 
 // DefaultMix returns a general-purpose mix.
@@ -385,6 +393,9 @@ func (c *client) genWrite(rec *TxnRec, key []byte, n int) (*badger.Entry, model.
 	}
 	tok := fmt.Sprintf("t%d.%d", rec.ID, n)
 	sz := m.ValSizes[c.r.Intn(len(m.ValSizes))]
+	if len(m.ValSizesLate) > 0 && c.e.nextTxn.Load() > int64(m.Clients*m.TxnsPerClient/2) {
+		sz = m.ValSizesLate[c.r.Intn(len(m.ValSizesLate))]
+	}
 	v := model.Ver{Token: tok, Len: sz, Txn: rec.ID}
 	e := badger.NewEntry(key, gen.Expand(tok, sz))
 	if c.r.Float64() < m.MetaFrac {
@@ -515,6 +526,18 @@ func (c *client) runTxn() {
 		return
 	} else {
 		rec.Writes = append(rec.Writes, WriteRec{Key: rec.Marker, Ver: mv})
+	}
+	if m.LateCommitFrac > 0 && c.r.Float64() < m.LateCommitFrac {
+		start := e.Acks.Load()
+		n := m.LongRWCommits
+		if n == 0 {
+			n = 50
+		}
+		deadline := time.Now().Add(300 * time.Millisecond)
+		for e.Acks.Load()-start < n && time.Now().Before(deadline) {
+			time.Sleep(200 * time.Microsecond)
+		}
+		rec.LateCommit = true
 	}
 	c.commit(txn, rec)
 }
